@@ -31,9 +31,9 @@ type view struct {
 	streams  []streamInfo
 	strFee   string
 
-	grants    []grant    // authz grants between scenario accounts
-	feegrants [][2]int   // (granter, grantee)
-	funded    []int      // accounts that exist and can spend nund
+	grants    []grant  // authz grants between scenario accounts
+	feegrants [][2]int // (granter, grantee)
+	funded    []int    // accounts that exist and can spend nund
 	exists    map[int]bool
 }
 
